@@ -77,6 +77,11 @@ def run(ctx):
     st = {s["path"]: f.canon(s["rhs"], subst=False) for s in paths.stores(f) if s["path"].startswith("ent->")}
     ctx.check(a0, st.get("ent->id.wid") == "wid" and st.get("ent->start") == "start" and st.get("ent->duration") == "duration" and st.get("ent->score") == "0", key(f, "fields"), f.where(f.root), "word entry is stored as %s" % st)
 
+    # ---- A6 the cached aligner belongs to the current utterance ---------------------------------------
+    from . import c08
+    a6 = ctx.rule("EFFECT.A6-aligner-cache", "a state aligner kept from an earlier request is reused only within the same utterance: decoder_start_utt releases and forgets it, and decoder_alignment compares its frame count before handing it back", floor=2)
+    c08.required_resets(ctx, P, a6, only={"decoder_start_utt_align_only"})
+
     # ---- A1 roles -----------------------------------------------------------------------------
     a1 = ctx.rule("ROLE.A1-models", "the expansion looks up, per phone position, the same context-dependent model the search uses: single-phone lrdiph_rc[ci][lc][rc], first ldiph_lc[ci][second][lc], internal by (word, position), last rssid[ci][second-last] at cimap[rc]; lc / rc are the neighbouring words' last / first phones (silence at the ends)", floor=10)
     f = pa["alignment_populate"]
